@@ -25,7 +25,7 @@ RULE = ("(a) EXHAUSTIVE sequences over an 8-symbol alphabet (create file A; crea
         "sequences are re-read in a freshly forked post-import process. non-trivial = a write after a write to a different entity, or an "
         "error case; distinct = distinct sequence")
 ASSUMPTIONS = [
-    "attribute keys 'sid', 'attribute', 'value', 'data', 'key', 'query' are not generated (parameter names / injected entry)",
+    "attribute keys 'attribute', 'value', 'data', 'key', 'query' are not generated (parameter names); a stored 'sid' key is generated for update / create (a record copied from another entity): the entity's own 'sid' entry must win",
     "two entities share attribute data exactly when their paths are equal after removing the last suffix (the tolerance the statement grants)",
     "values are JSON-native (str, int, bool, None, finite float, lists / dicts of those)",
     "entity names starting with '.' are not generated",
@@ -157,6 +157,9 @@ def random_cases(draw):
         if op != "create":
             nk = 1 if op == "set_attr" else draw(st.integers(1, 3))
             o["data"] = {draw(st.sampled_from(KEYS)): draw(json_values) for _ in range(nk)}
+            if op in ("update", "create_data") and draw(st.integers(0, 3)) == 0:
+                # a record read from another entity and written here carries that entity's 'sid' entry
+                o["data"]["sid"] = sids[draw(st.integers(0, len(sids) - 1))]
             if op in ("update", "create_data") and draw(st.integers(0, 2)) == 0:
                 # the caller passes the SAME dict object to several calls (e.g. a loop stamping one record on many Sids)
                 o["share"] = draw(st.integers(0, 1))
